@@ -34,7 +34,7 @@ var libOverlay = func(files ...string) map[string][]string {
 
 func init() {
 	properties["C01"] = &PropertySpec{ID: "C01",
-		Rule:        "shapes: every atom kind alone, every combinator over literal atoms, global-pattern programs (list in harness/C01/c01.go), plus the generated family F2 = 10 quantifier forms x 10 quantifier forms x 9 structural positions (nested, sequence-in-loop, alternation-in-loop, adjacent loops, capture+back-reference under loops, inline subroutine called twice, global pattern referenced twice, subroutine / global pattern called inside every loop form) = 900 programs; code-shape lead for every program of all families plus 17 programs with counted loops of 2..4 copies around calls, alternations and lists: when the generated code does not have the expected jump-target shape (calls target the StartSubroutine of their name, loop starts/stops pair up, branch/jump/not-in targets in range) the program is compared with the reference semantics on all ASCII texts of length 0..6 (thorough 8) and a violation is reported only with a distinguishing input, otherwise the run is inconclusive; text: all ASCII strings of length 0..T (quick T=3, thorough T=5); literal bytes symbolic (printable ASCII) in the symbolic-literal group; long inputs: 12 programs with a closed-form answer on texts u^k t (k saved backtracking states, loop iterations, nested calls, captured bytes), k symbolic in [30,34], [62,66], [126,130] (thorough also [14,18], [254,258], [510,514])",
+		Rule:        "shapes: every atom kind alone, every combinator over literal atoms, global-pattern programs (list in harness/C01/c01.go), plus the generated family F2 = 10 quantifier forms x 10 quantifier forms x 9 structural positions (nested, sequence-in-loop, alternation-in-loop, adjacent loops, capture+back-reference under loops, inline subroutine called twice, global pattern referenced twice, subroutine / global pattern called inside every loop form) = 900 programs; code-shape lead for every program of all families plus 17 programs with counted loops of 2..4 copies around calls, alternations and lists: when the generated code does not have the expected jump-target shape (calls target the StartSubroutine of their name, loop starts/stops pair up, branch/jump/not-in targets in range) the program is compared with the reference semantics on all ASCII texts of length 0..6 (thorough 8) and a violation is reported only with a distinguishing input, otherwise the run is inconclusive; text: all ASCII strings of length 0..T (quick T=3, thorough T=5); literal bytes symbolic (printable ASCII) in the symbolic-literal group; long inputs: 12 programs with a closed-form answer on texts u^k t (k saved backtracking states, loop iterations, nested calls, captured bytes), k symbolic in [30,34], [62,66], [126,130] (thorough also [14,18], [254,258], [510,514]); the enumerated grammar family of C02 (68 400 programs), every 199th starting at 101 (thorough every 3rd) at T = 3, spans and variables against the reference matcher",
 		Assumptions: []string{"ASCII text", "loop ids returned by math/rand.Int63 are pairwise distinct", "programs on which the property statement is silent (empty literals, empty/unbound back-references, named loops, whole file/line/word) are assumed away"},
 		Groups: []JobGroup{
 			{Name: "c01-concrete-literals", Overlay: libOverlay("C01/c01.go"), Pkg: "libvore", Entry: "VerifC01",
@@ -76,11 +76,21 @@ func init() {
 					}
 					return out
 				}},
+			{Name: "c01-enum", Overlay: libOverlay("C01/c01.go", "C02/c02.go", "C02/c02_enum.go"), Pkg: "libvore", Entry: "VerifC02Enum", PanicOK: true, MaxFailures: 2,
+				Args: func(tier string, l *Loaded) [][]int64 {
+					total := countOf(l, "libvore", "VerifC02EnumTotal")
+					stride, off := int(tOf(tier, 199, 3)), 101
+					var out [][]int64
+					for i := off; i < total; i += stride {
+						out = append(out, []int64{int64(i), 3})
+					}
+					return out
+				}},
 			{Name: "c01-twin", Overlay: libOverlay("C01/c01.go"), Pkg: "libvore", Entry: "VerifC01", Twin: true,
 				Args: func(tier string, l *Loaded) [][]int64 { return [][]int64{{0, 2, 0, 1}} }},
 		}}
 	properties["C02"] = &PropertySpec{ID: "C02",
-		Rule:        "capture-bearing shapes (captures under alternation, optional/repeated groups, subroutine calls, followed by constructs that can fail; back-references) x all ASCII texts of length 0..T (quick 3, thorough 5); literal bytes symbolic in the second group; 9 shapes with captures around recursive calls / sibling captures with inner choice points at T = 4 (thorough 5); generated family: 6 choice-point prefixes (overlapping lists, alternation, greedy/lazy loops, optional) x 6 captured bodies x 4 contexts in which the capture's path is abandoned (alternation, optional group, repeated group, sibling capture) + back-reference after an abandoned binding = 149 programs at T = 3 (thorough 4)",
+		Rule:        "capture-bearing shapes (captures under alternation, optional/repeated groups, subroutine calls, followed by constructs that can fail; back-references) x all ASCII texts of length 0..T (quick 3, thorough 5); literal bytes symbolic in the second group; 9 shapes with captures around recursive calls / sibling captures with inner choice points at T = 4 (thorough 5); generated family: 6 choice-point prefixes (overlapping lists, alternation, greedy/lazy loops, optional) x 6 captured bodies x 4 contexts in which the capture's path is abandoned (alternation, optional group, repeated group, sibling capture) + back-reference after an abandoned binding = 149 programs at T = 3 (thorough 4); enumerated grammar family (5 quantifier forms x (6 atoms | sequence, alternation, capture, inline subroutine of two quantified atoms), followed by nothing, a literal, a back-reference or a call): 68 400 programs, every 199th (thorough every 3rd) at T = 3",
 		Assumptions: []string{"ASCII text", "distinct loop ids", "unbound or empty back-references are assumed away (statement silent / C09)"},
 		Groups: []JobGroup{
 			{Name: "c02", Overlay: libOverlay("C02/c02.go"), Pkg: "libvore", Entry: "VerifC02", PanicOK: true,
@@ -98,6 +108,16 @@ func init() {
 			{Name: "c02-generated", Overlay: libOverlay("C02/c02.go"), Pkg: "libvore", Entry: "VerifC02Gen", PanicOK: true,
 				Args: func(tier string, l *Loaded) [][]int64 {
 					return seqArgs(countOf(l, "libvore", "VerifC02GenCount"), tOf(tier, 3, 4))
+				}},
+			{Name: "c02-enum", Overlay: libOverlay("C01/c01.go", "C02/c02.go", "C02/c02_enum.go"), Pkg: "libvore", Entry: "VerifC02Enum", PanicOK: true, MaxFailures: 2,
+				Args: func(tier string, l *Loaded) [][]int64 {
+					total := countOf(l, "libvore", "VerifC02EnumTotal")
+					stride, off := int(tOf(tier, 199, 3)), 0
+					var out [][]int64
+					for i := off; i < total; i += stride {
+						out = append(out, []int64{int64(i), 3})
+					}
+					return out
 				}},
 			{Name: "c02-twin", Overlay: libOverlay("C02/c02.go"), Pkg: "libvore", Entry: "VerifC02", Twin: true, PanicOK: true,
 				Args: func(tier string, l *Loaded) [][]int64 { return [][]int64{{0, 2, 0, 1}} }},
